@@ -56,7 +56,7 @@ theorem resolve_not_disc' (p : List Step) : ∀ (s : Shape) (v : Val) (t : Shape
       exact ih t1 u1 t u (step_facts s v st t1 u1 g h1).1 (step_not_disc' s v st t1 u1 g h1) h
 
 theorem amb_of_ctx {w : World} {s : Shape} {v : Val} (c : PCtx w .A s v) : Amb s w.a :=
-  ⟨c.ok, c.nd, by simpa [World.get] using c.big, by simpa [World.get] using c.far⟩
+  ⟨c.ok, c.nd, ⟨by simpa [World.get] using c.far, by simpa [World.get] using c.big⟩⟩
 
 /-- `opAt` for a successful multi-resize op on a single-address node, given what `runEvs` does with its events. -/
 theorem opAt_hon_comp_core {w : World} {s : Shape} {v : Val} (c : PCtx w .A s v) (π : List Step) (t : Shape) (u : Val)
